@@ -50,6 +50,14 @@ CHECKS = {
    technique="exhaustive enumeration of fault position x errno over every socket call of the run (<= k faults, alone and with one scheduling deviation), statement-derived oracle",
    text="9 configurations x round limit {1,2,3} x 2 paths: every send_to/bind/connect/select/read call is a fault position with an errno menu; all executions with <= 1 (2 thorough) faults. No fatal fault => Ok, exactly n rounds numbered 0..n-1; transient => exactly that slot Failed; TCP address-in-use => Skipped + same TTL re-issued under the next sequence; fatal => that error returned, no further round, visible in snapshot; plus silent paths with > 256 outstanding probes.",
    note=ASSUME_SIM + "; errno classification per configuration is the code's contract (DESIGN.md 5.9)", ref="3/C09"),
+ "C02": dict(cat="exploration", engine="E5+E2",
+   technique="exhaustive enumeration of the finite product (every sequence the real allocator can issue x quotation shape x cell) through real dispatch and receive code; negative half with one identity field altered",
+   text="56 cells: the real strategy runs until the allocator wraps so every issuable sequence (0..=65276; Dublin/IPv6 0..=765) is emitted by real dispatch code and answered by a hop whose quotation shape rotates over 13 shapes (hdr+8/28/64, full, unreachable, quoted TTL 0, zeroed checksum, TOS rewritten, outer IHL 6/15, RFC 4884 compliant/legacy, combo); target-originated answers one probe per round; 1024-octet probes (truncated quotations); every slot checked against ground truth. Negative: destination, pinned port, protocol, Dublin marker (each octet), ICMP identifier altered => nothing completes. Thorough = all 13 shape offsets (full sequence x shape product).",
+   note=ASSUME_SIM + "; per-round flow port is an observation (DESIGN.md 5.3)", ref="3/C02"),
+ "C19": dict(cat="model_checking", engine="E1+E2",
+   technique="bounded-exhaustive enumeration of topologies (every placement of <=2 rewriting devices x every subset of silent hops, paths <=5) with deviation-bounded exploration of each; statement-derived oracle on simulator ground truth",
+   text="IPv4/UDP/Dublin x 3 port directions x sizes/patterns: every path with target distance 1..5, every <=2-subset of NAT devices, every subset of silent hops, target answering or silent, 2 rounds, all executions with <=2 (3 thorough) scheduling deviations; Hop::last_nat_status() in the snapshot taken at every publish equals the statement's rule evaluated on the checksums the simulator's hops actually quoted; every other cell NotApplicable.",
+   note=ASSUME_SIM + "; NAT model: RFC 1624 incremental checksum adjustment, addresses restored in quotations", ref="3/C19"),
 }
 
 NOT_YET = {
